@@ -59,28 +59,34 @@ Proof.
   apply nth_error_nth'. unfold zlen in Hi. lia.
 Qed.
 
+Lemma nth_firstn_lt {A} (l : list A) n m d : (n < m)%nat -> nth n (firstn m l) d = nth n l d.
+Proof.
+  revert n m. induction l as [|a l IH]; intros n m H; [destruct m, n; reflexivity|].
+  destruct m; [lia|]. destruct n; [reflexivity|]. cbn [firstn nth]. apply IH. lia.
+Qed.
+
 (* a pixel array of equally long rows *)
-Lemma index_rows width (L : list bytes) : forall T k x,
+Lemma index_rows width (L : list (list byte)) : forall T k x,
   Forall (fun r => zlen r = width) L -> 0 <= k < zlen L -> 0 <= x < width ->
   index (concat L ++ T) (k * width + x) = index (nth (Z.to_nat k) L []) x.
 Proof.
   induction L as [|r L IH]; intros T k x Hall Hk Hx.
-  - change (zlen (@nil bytes)) with 0 in Hk. lia.
-  - pose proof (Forall_inv Hall) as Hr. pose proof (Forall_inv_tail Hall) as HL. rewrite zlen_cons in Hk.
+  - unfold zlen in Hk. cbn [length] in Hk. lia.
+  - pose proof (Forall_inv Hall) as Hr. cbv beta in Hr. pose proof (Forall_inv_tail Hall) as HL. rewrite zlen_cons in Hk.
     cbn [concat]. rewrite <- app_assoc.
     destruct (Z.eq_dec k 0) as [->|Hk0].
     + cbn [Z.to_nat nth]. rewrite Z.mul_0_l, Z.add_0_l. apply index_app_l. lia.
     + replace (k * width + x) with (zlen r + ((k - 1) * width + x)) by lia.
-      rewrite index_app_r by nia. rewrite (IH T (k - 1) x HL ltac:(lia) Hx).
+      rewrite index_app_r by nia. assert (Hk1 : 0 <= k - 1 < zlen L) by lia. rewrite (IH T (k - 1) x HL Hk1 Hx).
       replace (Z.to_nat k) with (S (Z.to_nat (k - 1))) by lia. reflexivity.
 Qed.
-Lemma index_rows_top width (L : list bytes) n k x :
+Lemma index_rows_top width (L : list (list byte)) n k x :
   Forall (fun r => zlen r = width) L -> zlen L <= k < zlen L + n -> 0 <= x < width ->
   index (concat L ++ zerosZ (width * n)) (k * width + x) = Some x00.
 Proof.
   intros Hall Hk Hx. pose proof (zlen_concat_rows width L Hall) as Hc. pose proof (zlen_nonneg L).
-  replace (k * width + x) with (zlen (concat L) + ((k - zlen L) * width + x)) by lia.
-  rewrite index_app_r by nia. apply index_zerosZ. nia.
+  assert (E : k * width + x = zlen (concat L) + ((k - zlen L) * width + x)) by (rewrite Hc; ring).
+  rewrite E. rewrite index_app_r by nia. apply index_zerosZ. nia.
 Qed.
 
 Lemma index_canvas_row pw W width r x : 0 <= pw -> zlen r = W -> pw + W <= width -> 0 <= x < width ->
@@ -135,7 +141,7 @@ Qed.
 
 (* ---------- pixels of a canvas built from stored rows ---------- *)
 (* rows: the stored rows top-down (the decoder's input order), crow: the canvas row of a stored row *)
-Lemma canvas_pixel {R} (crow : R -> bytes) (dflt : R) width (rows : list R) bh ph x y :
+Lemma canvas_pixel {R} (crow : R -> list byte) (dflt : R) width (rows : list R) bh ph x y :
   (forall r, zlen (crow r) = width) -> zlen rows = bh - ph -> 0 <= ph -> 0 <= x < width -> 0 <= y < bh ->
   index (concat (map crow (rev rows)) ++ zerosZ (width * ph)) ((bh - 1 - y) * width + x)
   = if ph <=? y then index (crow (nth (Z.to_nat (y - ph)) rows dflt)) x else Some x00.
@@ -171,6 +177,7 @@ Proof.
   assert (F1 : fits_i32 (bw * bh + 1078) = true) by (unfold fits_i32; apply andb_true_intro; split; [apply Z.leb_le | apply Z.ltb_lt]; nia).
   assert (F2 : fits_i32 bw = true) by (unfold fits_i32; apply andb_true_intro; split; [apply Z.leb_le | apply Z.ltb_lt]; lia).
   assert (F3 : fits_i32 bh = true) by (unfold fits_i32; apply andb_true_intro; split; [apply Z.leb_le | apply Z.ltb_lt]; lia).
+  replace (bw * bh + 256 * 4 + 40 + 14) with (bw * bh + 1078) by lia.
   rewrite F1, F2, F3. change (fits_i32 1078) with true. cbn [andb bind].
   rewrite Hpal. cbn [bind]. rewrite Hdata. cbn [bind].
   unfold bmp_header. rewrite app_nil_r. repeat rewrite <- app_assoc. reflexivity.
@@ -178,18 +185,60 @@ Qed.
 
 (* the pixel the property demands at canvas position (x, y), y counted from the top: the source pixel inside the
    image area, background (index 0) elsewhere; src gives the source row (at least w pixels) *)
-Definition want {R} (src : R -> bytes) (dflt : R) (rows : list R) (pw ph w x y : Z) : byte :=
+Definition want {R} (src : R -> list byte) (dflt : R) (rows : list R) (pw ph w x y : Z) : byte :=
   if (pw <=? x) && (x <? pw + w) && (ph <=? y) then nth (Z.to_nat (x - pw)) (src (nth (Z.to_nat (y - ph)) rows dflt)) x00 else x00.
+
+(* reading a file whose pixel array is made of canvas rows (the first w values of every source row at w_padding), the
+   last source row first, then h_padding background rows, then anything *)
+Theorem read_canvas {R} (src : R -> list byte) (dflt : R) (rows : list R) bw bh pw ph size nc pal E x y :
+  let w := bw - pw in let width := stride4 bw in
+  0 <= pw -> 0 < w -> 0 <= ph -> zlen rows = bh - ph -> (forall r, In r rows -> w <= zlen (src r)) ->
+  bw < 2 ^ 31 -> bh < 2 ^ 31 -> 54 + zlen pal < 2 ^ 32 -> 0 <= x < bw -> 0 <= y < bh ->
+  bmp_read (bmp_header size (54 + zlen pal) ++ bmp_info_header bw bh 8 nc ++ pal ++
+            (concat (map (fun r => canvas_row pw w width (firstn (Z.to_nat w) (src r))) (rev rows)) ++ zerosZ (width * ph) ++ E)) x y
+  = Some (want src dflt rows pw ph w x y).
+Proof.
+  intros w width Hpw Hw Hph Hrows Hsrc Hbw Hbh Hoff Hx Hy.
+  pose proof (zlen_nonneg rows) as Hrn.
+  rewrite bmp_read_data by lia. fold width.
+  pose proof (stride4_spec bw ltac:(lia)) as [_ Hs]. fold width in Hs.
+  set (crow := fun r => if w <=? zlen (src r) then canvas_row pw w width (firstn (Z.to_nat w) (src r)) else zerosZ width).
+  assert (Emap : map (fun r => canvas_row pw w width (firstn (Z.to_nat w) (src r))) (rev rows) = map crow (rev rows)).
+  { apply map_ext_in. intros r Hin. apply in_rev in Hin. unfold crow. destruct (Z.leb_spec w (zlen (src r))); [reflexivity|]. pose proof (Hsrc r Hin). lia. }
+  rewrite Emap.
+  assert (Hcl : forall r, zlen (crow r) = width).
+  { intros r. unfold crow. destruct (Z.leb_spec w (zlen (src r))); [|apply zlen_zerosZ; lia].
+    apply zlen_canvas_row; try lia. apply zlen_firstn_le. lia. }
+  assert (Hx' : 0 <= x < width) by lia.
+  (* the part of the pixel array a reader looks at *)
+  rewrite app_assoc.
+  assert (HD : zlen (concat (map crow (rev rows)) ++ zerosZ (width * ph)) = width * bh).
+  { rewrite zlen_app, zlen_zerosZ by nia.
+    rewrite (zlen_concat_rows width).
+    - unfold zlen. rewrite map_length, rev_length. unfold zlen in Hrows. lia.
+    - apply Forall_forall. intros r0 Hin. apply in_map_iff in Hin. destruct Hin as (r1 & <- & _). apply Hcl. }
+  rewrite index_app_l by (rewrite HD; nia).
+  etransitivity; [exact (canvas_pixel crow dflt width rows bh ph x y Hcl Hrows Hph Hx' Hy)|].
+  unfold want. destruct (Z.leb_spec ph y); [|rewrite andb_false_r; reflexivity].
+  assert (Hin : In (nth (Z.to_nat (y - ph)) rows dflt) rows) by (apply nth_In; unfold zlen in Hrows; lia).
+  pose proof (Hsrc _ Hin) as Hr.
+  unfold crow. destruct (Z.leb_spec w (zlen (src (nth (Z.to_nat (y - ph)) rows dflt)))); [|lia].
+  rewrite index_canvas_row by (try lia; apply zlen_firstn_le; lia).
+  destruct (Z.leb_spec pw x); cbn [andb].
+  - destruct (Z.ltb_spec x (pw + w)); [|lia].
+    rewrite index_nth by (rewrite zlen_firstn_le by lia; lia). f_equal. apply nth_firstn_lt. lia.
+  - reflexivity.
+Qed.
 
 Theorem bmp8_compressed_reader bw bh pw ph rows pname pdata pal :
   let w := bw - pw in let W := w + w mod 2 in let enc := concat (map enc_toks rows) in
-  0 <= pw -> 0 < w -> 0 <= ph -> zlen rows = bh - ph -> pw + W <= stride4 bw -> Forall (wf_row W) rows ->
+  0 <= pw -> 0 < w -> 0 <= ph -> zlen rows = bh - ph -> Forall (wf_row W) rows ->
   bw < 2 ^ 31 -> bh < 2 ^ 31 -> bw * bh + 1078 < 2 ^ 31 -> pal_ok 8 256 pname pdata pal ->
   zlen enc <> W * (bh - ph) ->
   exists bmp, decode8 enc bw bh pw ph pname pdata = Ok bmp /\
     forall x y, 0 <= x < bw -> 0 <= y < bh -> bmp_read bmp x y = Some (want dec_toks [] rows pw ph w x y).
 Proof.
-  intros w W enc Hpw Hw Hph Hrows Hfit Hwf Hbw Hbh Hsz Hpal Hne.
+  intros w W enc Hpw Hw Hph Hrows Hwf Hbw Hbh Hsz Hpal Hne.
   pose proof (zlen_nonneg rows) as Hrn.
   eexists. split.
   - apply (parts8_file enc bw bh pw ph pname pdata pal); try assumption; try lia.
@@ -197,26 +246,9 @@ Proof.
     apply (compressed8_pixels bw bh pw ph rows); assumption.
   - intros x y Hx Hy. destruct Hpal as [_ Hpl].
     change 1078 with (54 + 256 * 4) at 2. rewrite <- Hpl.
-    rewrite bmp_read_data by (try lia; rewrite Hpl; lia).
-    pose proof (stride4_spec bw ltac:(lia)) as [_ Hs].
-    assert (HW : w <= W <= w + 1) by (unfold W; pose proof (Z.mod_pos_bound w 2 ltac:(lia)); lia).
-    assert (Hcrow : forall ts, In ts rows -> zlen (dec_toks ts) = W).
-    { intros ts Hin. rewrite Forall_forall in Hwf. apply (Hwf ts Hin). }
-    (* canvas rows: equal length needs the row length, so go through a total version *)
-    set (crow := fun ts => if zlen (dec_toks ts) =? W then canvas_row pw W (stride4 bw) (dec_toks ts) else zerosZ (stride4 bw)).
-    assert (Emap : map (fun ts => canvas_row pw W (stride4 bw) (dec_toks ts)) (rev rows) = map crow (rev rows)).
-    { apply map_ext_in. intros ts Hin. apply in_rev in Hin. unfold crow. rewrite (Hcrow ts Hin), Z.eqb_refl. reflexivity. }
-    rewrite Emap.
-    rewrite (canvas_pixel crow [] (stride4 bw) rows bh ph x y); try assumption; try lia.
-    2:{ intros ts. unfold crow. destruct (Z.eqb_spec (zlen (dec_toks ts)) W); [apply zlen_canvas_row; lia | apply zlen_zerosZ; lia]. }
-    unfold want. destruct (Z.leb_spec ph y); [|rewrite andb_false_r; reflexivity].
-    assert (Hin : In (nth (Z.to_nat (y - ph)) rows []) rows) by (apply nth_In; unfold zlen in Hrows; lia).
-    unfold crow. rewrite (Hcrow _ Hin), Z.eqb_refl.
-    rewrite index_canvas_row by (try lia; apply Hcrow; exact Hin).
-    destruct (Z.leb_spec pw x); cbn [andb].
-    + destruct (Z.ltb_spec x (pw + W)); [|lia]. destruct (Z.ltb_spec x (pw + w)); [|lia].
-      apply index_nth. rewrite (Hcrow _ Hin). lia.
-    + reflexivity.
+    apply (read_canvas dec_toks [] rows bw bh pw ph); try assumption; try lia.
+    intros r Hin. rewrite Forall_forall in Hwf. destruct (Hwf r Hin) as (_ & _ & Hl). fold w. rewrite Hl.
+    unfold W. pose proof (Z.mod_pos_bound w 2 ltac:(lia)). lia.
 Qed.
 
 Theorem bmp8_raw_reader bw bh pw ph rows pname pdata pal :
@@ -235,24 +267,89 @@ Proof.
     apply (raw8_pixels bw bh pw ph W rows); try assumption; lia.
   - intros x y Hx Hy. destruct Hpal as [_ Hpl].
     change 1078 with (54 + 256 * 4) at 2. rewrite <- Hpl.
-    rewrite bmp_read_data by (try lia; rewrite Hpl; lia).
-    pose proof (stride4_spec bw ltac:(lia)) as [_ Hs].
-    set (crow := fun r : bytes => if zlen r =? W then raw_canvas8 pw w (stride4 bw) r else zerosZ (stride4 bw)).
-    assert (Emap : map (raw_canvas8 pw w (stride4 bw)) (rev rows) = map crow (rev rows)).
-    { apply map_ext_in. intros r Hin. apply in_rev in Hin. unfold crow. rewrite Forall_forall in Hall. rewrite (Hall r Hin), Z.eqb_refl. reflexivity. }
-    rewrite Emap.
-    rewrite (canvas_pixel crow [] (stride4 bw) rows bh ph x y); try assumption; try lia.
-    2:{ intros r. unfold crow. destruct (Z.eqb_spec (zlen r) W); [|apply zlen_zerosZ; lia].
-        unfold raw_canvas8. apply zlen_canvas_row; try lia. apply zlen_firstn_le. lia. }
-    unfold want. destruct (Z.leb_spec ph y); [|rewrite andb_false_r; reflexivity].
-    assert (Hin : In (nth (Z.to_nat (y - ph)) rows []) rows) by (apply nth_In; unfold zlen in Hrows; lia).
-    rewrite Forall_forall in Hall. pose proof (Hall _ Hin) as Hr.
-    unfold crow. rewrite Hr, Z.eqb_refl. unfold raw_canvas8.
-    rewrite index_canvas_row by (try lia; apply zlen_firstn_le; lia).
-    destruct (Z.leb_spec pw x); cbn [andb].
-    + destruct (Z.ltb_spec x (pw + w)); [|lia].
-      rewrite index_nth by (rewrite zlen_firstn_le by lia; lia). f_equal.
-      rewrite <- (firstn_skipn (Z.to_nat w) (nth (Z.to_nat (y - ph)) rows [])) at 2.
-      rewrite app_nth1; [reflexivity|]. rewrite firstn_length. unfold zlen in Hr. lia.
-    + reflexivity.
+    rewrite <- (app_nil_r (zerosZ (stride4 bw * ph))).
+    apply (read_canvas (fun r : list byte => r) [] rows bw bh pw ph); try assumption; try lia.
+    intros r Hin. rewrite Forall_forall in Hall. fold w. rewrite (Hall r Hin). lia.
+Qed.
+
+(* ---------- the whole file of a 1-bit image (written with one byte per pixel and a 2-colour table) ---------- *)
+Definition w_size1 (w : Z) : Z :=
+  let s := Z.quot w 8 in let s := if w mod 8 >? 0 then s + 1 else s in s + s mod 2.
+Lemma w_size1_ge w : 0 < w -> (w + 7) / 8 <= w_size1 w.
+Proof.
+  intros Hw. unfold w_size1. rewrite Z.quot_div_nonneg by lia.
+  pose proof (Z.div_mod w 8 ltac:(lia)) as Hd. pose proof (Z.mod_pos_bound w 8 ltac:(lia)) as Hm.
+  set (s := if w mod 8 >? 0 then w / 8 + 1 else w / 8).
+  assert (Hs : (w + 7) / 8 = s).
+  { unfold s. destruct (Z.gtb_spec (w mod 8) 0).
+    - symmetry. apply (Z.div_unique _ _ _ (w mod 8 - 1)); lia.
+    - symmetry. apply (Z.div_unique _ _ _ 7); lia. }
+  rewrite Hs. pose proof (Z.mod_pos_bound s 2 ltac:(lia)). lia.
+Qed.
+
+Lemma parts1_file f bw bh pw ph pname pdata pal data :
+  0 <= ph -> 0 <= bw < 2 ^ 31 -> 0 <= bh < 2 ^ 31 -> bw * bh + 62 < 2 ^ 31 ->
+  pal_ok 1 2 pname pdata pal ->
+  (if zlen f =? w_size1 (bw - pw) * (bh - ph) then decode_raw1 f bw bh pw ph (stride4 bw) (w_size1 (bw - pw))
+   else decode_compressed1 f bw bh pw ph (stride4 bw)) = Ok data ->
+  decode1 f bw bh pw ph pname pdata = Ok (bmp_header (bw * bh + 62) 62 ++ bmp_info_header bw bh 8 2 ++ pal ++ data).
+Proof.
+  intros Hph Hbw Hbh Hsz [Hpal _] Hdata. unfold decode1, parts1.
+  destruct (Z.ltb_spec ph 0); [lia|].
+  change (2 * 4 + 40 + 14) with 62. cbv zeta. fold (w_size1 (bw - pw)).
+  unfold hdr_parts, info_part. cbn [app collect_parts].
+  assert (F1 : fits_i32 (bw * bh + 62) = true) by (unfold fits_i32; apply andb_true_intro; split; [apply Z.leb_le | apply Z.ltb_lt]; nia).
+  assert (F2 : fits_i32 bw = true) by (unfold fits_i32; apply andb_true_intro; split; [apply Z.leb_le | apply Z.ltb_lt]; lia).
+  assert (F3 : fits_i32 bh = true) by (unfold fits_i32; apply andb_true_intro; split; [apply Z.leb_le | apply Z.ltb_lt]; lia).
+  replace (bw * bh + 2 * 4 + 40 + 14) with (bw * bh + 62) by lia.
+  rewrite F1, F2, F3. change (fits_i32 62) with true. cbn [andb bind].
+  rewrite Hpal. cbn [bind]. rewrite Hdata. cbn [bind].
+  unfold bmp_header. rewrite app_nil_r. repeat rewrite <- app_assoc. reflexivity.
+Qed.
+
+Theorem bmp1_compressed_reader bw bh pw ph rows pname pdata pal :
+  let w := bw - pw in let W := width16 w in let enc := concat (map enc_toks rows) in
+  0 <= pw -> 0 < w -> 0 <= ph -> zlen rows = bh - ph -> Forall (wf_row (W / 8)) rows ->
+  bw < 2 ^ 31 -> bh < 2 ^ 31 -> bw * bh + 62 < 2 ^ 31 -> pal_ok 1 2 pname pdata pal ->
+  zlen enc <> w_size1 w * (bh - ph) ->
+  exists bmp, decode1 enc bw bh pw ph pname pdata = Ok bmp /\
+    forall x y, 0 <= x < bw -> 0 <= y < bh ->
+    bmp_read bmp x y = Some (want (fun ts => bits_of (dec_toks ts)) [] rows pw ph w x y).
+Proof.
+  intros w W enc Hpw Hw Hph Hrows Hwf Hbw Hbh Hsz Hpal Hne.
+  pose proof (zlen_nonneg rows) as Hrn.
+  pose proof (width16_spec w ltac:(lia)) as [H16 HWr]. fold W in H16, HWr.
+  pose proof (width16_bytes w ltac:(lia)) as HW8. fold W in HW8.
+  eexists. split.
+  - apply (parts1_file enc bw bh pw ph pname pdata pal); try assumption; try lia.
+    fold w. destruct (Z.eqb_spec (zlen enc) (w_size1 w * (bh - ph))); [contradiction|].
+    apply (compressed1_pixels bw bh pw ph rows); assumption.
+  - intros x y Hx Hy. destruct Hpal as [_ Hpl].
+    change 62 with (54 + 2 * 4) at 2. rewrite <- Hpl.
+    rewrite <- (app_nil_r (zerosZ (stride4 bw * ph))).
+    apply (read_canvas (fun ts => bits_of (dec_toks ts)) [] rows bw bh pw ph); try assumption; try lia.
+    intros r Hin. rewrite Forall_forall in Hwf. destruct (Hwf r Hin) as (_ & _ & Hl). fold w. rewrite zlen_bits_of, Hl. lia.
+Qed.
+
+Theorem bmp1_raw_reader bw bh pw ph rows pname pdata pal :
+  let w := bw - pw in let W := w_size1 w in
+  0 <= pw -> 0 < w -> 0 <= ph -> zlen rows = bh - ph -> Forall (fun r => zlen r = W) rows ->
+  bw < 2 ^ 31 -> bh < 2 ^ 31 -> bw * bh + 62 < 2 ^ 31 -> pal_ok 1 2 pname pdata pal ->
+  exists bmp, decode1 (concat rows) bw bh pw ph pname pdata = Ok bmp /\
+    forall x y, 0 <= x < bw -> 0 <= y < bh -> bmp_read bmp x y = Some (want bits_of [] rows pw ph w x y).
+Proof.
+  intros w W Hpw Hw Hph Hrows Hall Hbw Hbh Hsz Hpal.
+  pose proof (zlen_nonneg rows) as Hrn.
+  pose proof (w_size1_ge w Hw) as HW. fold W in HW.
+  assert (Hnb : w <= 8 * W).
+  { pose proof (Z.div_mod (w + 7) 8 ltac:(lia)). pose proof (Z.mod_pos_bound (w + 7) 8 ltac:(lia)). lia. }
+  eexists. split.
+  - apply (parts1_file (concat rows) bw bh pw ph pname pdata pal); try assumption; try lia.
+    fold w. fold W. rewrite (zlen_concat_rows W rows Hall), Hrows, Z.eqb_refl.
+    apply (raw1_pixels bw bh pw ph W rows); try assumption.
+  - intros x y Hx Hy. destruct Hpal as [_ Hpl].
+    change 62 with (54 + 2 * 4) at 2. rewrite <- Hpl.
+    rewrite <- (app_nil_r (zerosZ (stride4 bw * ph))).
+    apply (read_canvas bits_of [] rows bw bh pw ph); try assumption; try lia.
+    intros r Hin. rewrite Forall_forall in Hall. fold w. rewrite zlen_bits_of, (Hall r Hin). lia.
 Qed.
